@@ -30,8 +30,8 @@ def pairings(L, adjacent_only):
         for combo in itertools.combinations(cand, k):
             keys = [a for a, _ in combo]
             vals = [b for _, b in combo]
-            if len(set(keys)) < k:
-                continue
+            if len(set(keys)) < k or len(set(vals)) < k:
+                continue        # pairs: every variable has its own partner
             if set(keys) & set(vals):
                 continue
             out.append(dict(combo))
@@ -43,9 +43,12 @@ class Harness:
     mode = 'M'
 
     def __init__(self, N=4, L=2, which=('preimage', 'image', 'image_nonadjacent'),
-                 maxpairs=2, styles=('names', 'levels')):
+                 maxpairs=2, styles=('names', 'levels'), minpairs=1, qsets=None, foralls=(0, 1),
+                 forward_only=False):
         self.N, self.L, self.which, self.maxpairs = N, L, list(which), maxpairs
         self.styles = list(styles)
+        self.minpairs, self.qsets, self.foralls = minpairs, qsets, list(foralls)
+        self.forward_only = forward_only
 
     def install(self):
         self.B = base.import_dd('dd.bdd')
@@ -56,16 +59,21 @@ class Harness:
         c = engine.CTX
         N, L = self.N, self.L
         which = self.which[c.choose(len(self.which), 'which')]
-        forall = bool(c.choose(2, 'forall'))
+        forall = bool(self.foralls[c.choose(len(self.foralls), 'forall')])
         style = self.styles[c.choose(len(self.styles), 'style')]
         maps = [d for d in pairings(L, which != 'image_nonadjacent')
-                if len(d) <= self.maxpairs]
+                if self.minpairs <= len(d) <= self.maxpairs]
         if which == 'image_nonadjacent':
             maps = [d for d in maps if any(abs(a - b) != 1 for a, b in d.items())]
+        if self.forward_only:
+            maps = [d for d in maps if all(b == a + 1 and a % 2 == 0 for a, b in d.items())]
         if not maps:
             raise engine.Abort()
         ren = maps[c.choose(len(maps), 'rename')]
-        subs = [list(s) for k in range(L + 1) for s in itertools.combinations(range(L), k)]
+        if self.qsets == 'values':
+            subs = [[], sorted(set(ren.values()))]
+        else:
+            subs = [list(s) for k in range(L + 1) for s in itertools.combinations(range(L), k)]
         qlev = subs[c.choose(len(subs), 'qvars')]
         m = SymMgr(N, 0, L, with_cache=False, with_refs=False)
         m.assume_pre()
